@@ -101,7 +101,7 @@ Definition n_even : str := [101;118;101;110]%N.
 
 Section Parser.
 Variable s : str.
-Let len := length s.
+Local Notation len := (length s).
 
 (* p.s[i] : panics out of range *)
 Definition at_ (site : N) (i : nat) : res N :=
